@@ -158,6 +158,9 @@ structure Ctx where
   `C07.cpct_recovering_parse_result`, …): `C05.wholeRunCert`, `SearchImpl.stateActionsExactB`, costs ≥ 1
   (evaluated once per table, for `which = 6`) -/
   capTable : Bool := false
+  /-- the hypotheses on table and costs of `C06.recover_never_panics` (`Cpct.noPanicTableB`: `Cert.check`,
+  `stateActionsExactB`, `PARSE_AT_LEAST ≥ 1`; costs ≥ 1), evaluated once per table, for `which = 6` -/
+  npTable : Bool := false
 
 def N_SHIFTS := 3
 
@@ -235,12 +238,18 @@ def modelWalk (X : Ctx) (k : Nat) (w : List Nat) : Nat → Pos → List ErrD →
         else "C errors_outside_the_hypotheses_of_the_capstone_theorems 1") ::
         (if Cpct.errCfg X.G X.A w ce then [] else ["C errors_at_a_configuration_that_is_not_an_error_configuration 1"]) ++
         (if w.length ≤ ce.pos + GrmVerif.Extracted.TRY_PARSE_AT_MOST then ["C errors_within_the_window_hypothesis 1"] else [])
+      -- the hypotheses of `C06.recover_never_panics` at this error (`C06.recover_never_panics_checked`):
+      -- table part `npTable`; the input consists of real tokens, the configuration is an error
+      -- configuration, its stack is a path of the automaton (`Cpct.noPanicCfgB`)
+      let nopanic := X.npTable && Cpct.noPanicCfgB X.G X.A w ce
+      let np := if nopanic then "C errors_where_the_model_of_recover_cannot_panic_by_theorem 1"
+        else "C errors_outside_the_hypotheses_of_the_no_panic_theorem 1"
       let skip (why : String) : List String :=
         match errs with
         | [] => [hdr ++ why]
         | e :: rest =>
           let r := e.seqs.map (fun s => s.map toPRepair)
-          [hdr ++ seqsStr r, s!"C errors_where_the_model_search_was_skipped_{why} 1"] ++
+          [hdr ++ seqsStr r, s!"C errors_where_the_model_search_was_skipped_{why} 1", np] ++
           (match r with
            | [] => []
            | s0 :: _ =>
@@ -249,18 +258,21 @@ def modelWalk (X : Ctx) (k : Nat) (w : List Nat) : Nat → Pos → List ErrD →
              | some c' => modelWalk X k w budget c' rest (n + 1))
       match SearchImpl.dijkstra E SEARCH_FUEL ce with
       | .fuelOut => skip "over_the_node_budget"
-      | .panic => [hdr ++ "model-search-panics"]
+      | .panic => [hdr ++ "model-search-panics", np] ++
+          (if nopanic then [s!"V fail model-of-recover-panics-inside-the-hypotheses-of-the-no-panic-theorem input={k} w={w} error={n}"] else [])
       | .ok cnds =>
         if (cnds.map (fun m => SearchImpl.countSeqs m.repairs)).sum > EXPAND_LIMIT then skip "over_the_expansion_budget"
         else
           match SearchImpl.recoverTail E RankImpl.dedup X.avoid (fun i => X.stride * i + 1)
               GrmVerif.Extracted.TRY_PARSE_AT_MOST ce cnds with
           | .ok (c', seqs) =>
-            [hdr ++ seqsStr seqs, "C errors_where_the_full_model_of_recover_ran 1", hyp] ++ cap ++
+            [hdr ++ seqsStr seqs, "C errors_where_the_full_model_of_recover_ran 1", hyp, np] ++ cap ++
             (if cnds.any (fun m => match m.repairs with | .merge _ _ _ => true | _ => false)
               then ["C errors_with_merged_success_nodes 1"] else []) ++
             (if seqs.isEmpty then [] else modelWalk X k w budget c' errs.tail (n + 1))
-          | _ => [hdr ++ "model-post-processing-panics"]
+          | .fuelOut => [hdr ++ "model-post-processing-out-of-model-fuel", np]
+          | .panic => [hdr ++ "model-post-processing-panics", np] ++
+            (if nopanic then [s!"V fail model-of-recover-panics-inside-the-hypotheses-of-the-no-panic-theorem input={k} w={w} error={n}"] else [])
 
 /-- the verdicts for one input; `which` ∈ {5, 6, 7} -/
 partial def judge (X : Ctx) (which : Nat) (k : Nat) (i : Inp) : List String :=
@@ -468,7 +480,8 @@ def handle (args : List Nat) : String :=
           let X : Ctx := ⟨G, A, fun t => costs.getD t 1, fun t => avoid.getD t 0 != 0, stride, toklen, cap,
             which == 7 && certOk && termOk, costs.all (· ≥ 1),
             which == 6 && costs.all (· ≥ 1) && A.sr.isEmpty && A.rr.isEmpty && !C01.precResolved G A &&
-              Cpct.tableOkB G A && GrmVerif.C05.wholeRunCert G A⟩
+              Cpct.tableOkB G A && GrmVerif.C05.wholeRunCert G A,
+            which == 6 && costs.all (· ≥ 1) && Cpct.noPanicTableB G A GrmVerif.Extracted.PARSE_AT_LEAST⟩
           let vs := (List.range inps.length).flatMap (fun k =>
             let i := inps.getD k ⟨[], 0, none, []⟩
             if i.kind != 1 then [] else judge X which k i)
